@@ -51,7 +51,8 @@ func genC07(e *emitter, tier string, seed uint64) {
 	}
 	// every single flag and every pair of flags on a fixed set of nasty scripts
 	nasty := [][2][]byte{{{}, {0x98}}, {{0x00}, {0x98}}, {{0x00, 0x00}, {0x99}}, {{0x02, 1, 2, 0x59}, {0x98}}, {{0x51}, {0xb1}}, {{0x51}, {0xb2}},
-		{{0x00, 0x00}, {0xae}}, {{0x51, 0x51}, {0xac}}, {{}, {0x6a}}, {{0x51}, {0x63}}, {{0x51}, {0x4c}}, {{0x4d, 0x01}, {0x51}}, {{0x00}, {0xa9, 0x14}}}
+		{{0x00, 0x00}, {0xae}}, {{0x51, 0x51}, {0xac}}, {{}, {0x6a}}, {{0x51, 0x51, 0xab, 0xab, 0xab, 0x6a}, {0xac}}, {{0x51, 0xab, 0x61, 0x61, 0x6a}, {0x51, 0x51, 0xae}},
+		{{0x03, 1, 2, 3, 0x09, 0, 0, 0, 0, 0, 0, 0, 0x80, 0x00}, {0x7f}}, {{0x51, 0x09, 1, 0, 0, 0, 0, 0, 0, 0, 0x01}, {0x79}}, {{0x51}, {0x63}}, {{0x51}, {0x4c}}, {{0x4d, 0x01}, {0x51}}, {{0x00}, {0xa9, 0x14}}}
 	for i, f1 := range flagBits {
 		for j, f2 := range flagBits {
 			if j < i {
@@ -60,6 +61,30 @@ func genC07(e *emitter, tier string, seed uint64) {
 			for _, ns := range nasty {
 				for kind := 0; kind < 2; kind++ {
 					total(f1|f2, ns[0], ns[1], kind, 0)
+				}
+			}
+		}
+	}
+	// the DER framing guards of checkSignatureEncoding: a valid signature cut at every length, outer length patched,
+	// R length swept so that the S header straddles the cut (every index expression of the check at its boundary)
+	{
+		k := genKey(r)
+		lock := append(rawPush(k.pubC), 0xac)
+		full := signFor(tx, 0, lock, 1000, 0x41, k, false)
+		body := full[:len(full)-1]
+		for L := 2; L <= len(body)+1; L++ {
+			for variant := 0; variant < 7; variant++ {
+				t := make([]byte, L)
+				copy(t, body)
+				if L > len(body) {
+					t[L-1] = 0x01
+				}
+				t[1] = byte(L - 2)
+				if variant > 0 && L >= 5 {
+					t[3] = byte(L - 9 + variant)
+				}
+				for _, fl := range []int{fDERSig, fStrictEnc | fForkID, fLowS | fAfterGenesis} {
+					total(fl, rawPush(append(t, 0x41)), lock, 1, 0)
 				}
 			}
 		}
